@@ -95,6 +95,7 @@ fn run(name: &str, args: &Value) -> Value {
         "c09_server_bytes" => c09::server_bytes(args),
         "c09_cause_for_everyone" => c09::cause_for_everyone(args),
         "c09_send_fails_on_unsubscribe" => c09::send_fails_on_unsubscribe(args),
+        "c08_limits_apart" => c07::limits_apart(args),
         "c08_append" => c08::append(args),
         "c08_batch_total" => c08::batch_total(args),
         "c08_response" => c08::response(args),
